@@ -132,20 +132,61 @@ def containsPath (rule : Rule) (p : IPt) (subs : List Sub) : Bool :=
   match windingsPath p subs with
   | .ok n b => b || rule.fills n
 
-/-- the loop of `Path.Crossings` over one subpath's hits, in half crossings -/
-def crossHalves : List Z → Int → Bool → Int × Bool
-  | [], h, b => (h, b)
-  | z :: rest, h, b =>
-    if z.t0zero then crossHalves rest h true
-    else if !z.same then crossHalves rest (if z.endpoint then h + 1 else h + 2) b
-    else crossHalves rest (if z.endpoint then h - 1 else h) b
+/-! ### `Path.Crossings` (13dd06a): walk along the subpath, count where it changes sides -/
 
-/-- `Path.Crossings`: `n += int(ni)` truncates towards zero -/
+/-- `rayIntersections(x, y, false)` followed by the rotation in `Crossings`: when the first hit is at
+the start of a segment and the last at the end of one, the last is moved to the front (the start
+of the subpath follows on the end of its closing segment) -/
+def crossRot (hs : List Hit) : List Hit :=
+  match hs with
+  | h0 :: _ :: _ =>
+    match hs.getLast? with
+    | some hl => if h0.tb = .zero ∧ hl.tb = .one then hl :: hs.dropLast else hs
+    | none => hs
+  | _ => hs
+
+/-- overlapping section entered (and how), or left before being entered (and how) -/
+structure CSt where
+  entered : Bool := false
+  enteredInto : Bool := false
+  left : Bool := false
+  leftInto : Bool := false
+deriving Repr, DecidableEq
+
+/-- a vertex on the ray: end hit `e` of one segment followed by start hit `z` of the next -/
+def crossPair (e z : Hit) (st : CSt) (n : Int) : Int × CSt :=
+  if !e.same && z.same then (n, { st with entered := true, enteredInto := e.into })
+  else if e.same && !z.same then
+    if !st.entered then (n, { st with left := true, leftInto := z.into, entered := false })
+    else (if z.into == st.enteredInto then n + 1 else n, { st with entered := false })
+  else if !e.same && e.into == z.into then (n + 1, st)
+  else (n, st)
+
+/-- the loop of `Crossings` over the hits of one subpath in path order. `pe` is the end hit
+(T[1] = 1, not at the ray start) that may still find its partner in the next hit. Flat hits inside a
+segment are never tangent to the ray. Returns count, boundary flag, state. -/
+def crossWalk : Option Hit → List Hit → CSt → Int → Bool → Int × Bool × CSt
+  | _, [], st, n, b => (n, b, st)
+  | pe, z :: rest, st, n, b =>
+    if z.t0zero then crossWalk none rest st n true
+    else if z.tb = .mid then crossWalk none rest st (if z.same then n else n + 1) b
+    else if z.tb = .one then crossWalk (some z) rest st n b
+    else match pe with
+      | some e => let r := crossPair e z st n; crossWalk none rest r.2 r.1 b
+      | none => crossWalk none rest st n b
+
+/-- one subpath: walk, then a section that was left at the beginning and entered at the end counts
+if it is left towards the side it was not entered from -/
+def crossingsSub (closed : Bool) (p : IPt) (poly : List IPt) (b : Bool) : Int × Bool :=
+  let r := crossWalk none (crossRot (subHits closed p poly)) {} 0 b
+  let st := r.2.2
+  (if st.entered && st.left && st.enteredInto == st.leftInto then r.1 + 1 else r.1, r.2.1)
+
 def crossingsPathGo (p : IPt) : List Sub → Int → Bool → Int × Bool
   | [], n, b => (n, b)
   | s :: rest, n, b =>
-    let r := crossHalves ((rayHits s.1 p s.2).map Hit.z) 0 b
-    crossingsPathGo p rest (n + Int.tdiv r.1 2) r.2
+    let r := crossingsSub s.1 p s.2 b
+    crossingsPathGo p rest (n + r.1) r.2
 
 def crossingsPath (p : IPt) (subs : List Sub) : Int × Bool := crossingsPathGo p subs 0 false
 
